@@ -423,6 +423,11 @@ func (e *env) finish() {
 	if len(s.W.Gaps) > 0 && out.HarnessErr == "" {
 		out.HarnessErr = "model gap: " + s.W.Gaps[0]
 	}
+	if os.Getenv("VERIF_DUMP_LOG") != "" {
+		for _, ex := range s.W.Log {
+			fmt.Fprintf(os.Stderr, "LOG step=%d seq=%d conn=%d node=%s role=%s inexec=%v queued=%v %q => %s\n", ex.Step, ex.Seq, ex.Conn, ex.Node, ex.Role, ex.InExec, ex.Queued, truncArgv(ex.Argv), truncStr(ex.Reply.String(), 60))
+		}
+	}
 	randState.on.Store(false)
 	s.Shutdown()
 	// let timers of goroutines that are winding down (close grace periods, clean-up polls) fire
